@@ -239,3 +239,23 @@ pub fn mk_xfer_msgs(req: &[u8], n: usize) -> Vec<Vec<u8>> {
     }
     out
 }
+
+/// A reply with the request's id whose question section is not the
+/// request's: empty although records follow (`extra` = false), or the
+/// request's question followed by another one (`extra` = true).
+pub fn mk_reply_odd_question_section(req: &[u8], token: u32, extra: bool) -> Vec<u8> {
+    let msg = Message::from_octets(req).expect("request");
+    let q = msg.first_question().expect("question");
+    let mut mb = MessageBuilder::new_vec();
+    mb.header_mut().set_id(msg.header().id());
+    mb.header_mut().set_qr(true);
+    mb.header_mut().set_ra(true);
+    let mut qb = mb.question();
+    if extra {
+        qb.push((q.qname(), q.qtype())).unwrap();
+        qb.push((name("second.question.sim."), Rtype::A)).unwrap();
+    }
+    let mut ab = qb.answer();
+    ab.push((q.qname(), Class::IN, Ttl::from_secs(300), A::new(Ipv4Addr::from(token)))).unwrap();
+    ab.into_message().into_octets()
+}
